@@ -42,6 +42,7 @@ type badChanList struct {
 }
 
 var unsupportedKinds = []string{"chan", "func", "complex64", "complex128", "uintptr", "unsafe.Pointer",
+	"nil chan", "nil func", "struct{nil chan}",
 	"struct{chan}", "*struct{chan}", "struct{func}", "struct{[]complex128}", "struct{map[string]func}", "struct{*struct{chan}}", "[]chan", "struct{[]chan}", "map[string]chan", "[]interface{}{chan}"}
 
 func unsupportedValue(kind string) interface{} {
@@ -59,6 +60,13 @@ func unsupportedValue(kind string) interface{} {
 		return uintptr(77)
 	case "unsafe.Pointer":
 		return unsafe.Pointer(&x)
+	case "nil chan":
+		// a channel is of an unrepresentable kind whether or not it is nil
+		return (chan int)(nil)
+	case "nil func":
+		return (func())(nil)
+	case "struct{nil chan}":
+		return &badChanField{A: 1, B: "b"}
 	case "struct{chan}":
 		return badChanField{A: 1, C: make(chan int), B: "b"}
 	case "*struct{chan}":
